@@ -125,7 +125,9 @@ class Woven:
             if len(hits) != 1:
                 raise ExtractError('%s: anchor %r occurs %d times, expected once' % (self.name(), pattern, len(hits)))
             nth = 0
-        if nth == -1 and hits:
+        if nth == -1:
+            if not hits:
+                raise ExtractError('%s: anchor %r (last occurrence) not found' % (self.name(), pattern))
             nth = len(hits) - 1
         if len(hits) <= nth:
             raise ExtractError('%s: anchor %r (occurrence %d) not found' % (self.name(), pattern, nth))
